@@ -43,32 +43,34 @@ inductive Event where
 abbrev MaybeResp := MaybeSet Response
 abbrev Handler := Request → String → MaybeResp × List Event
 
+/-- Names removed from the signature before binding: the context parameter (`if self.context`) and
+what the validator's predicate selects.  A view method's bound method is validated as it is (only
+the predicate applies). -/
+def MethodDef.exclusions (m : MethodDef) : List String :=
+  if m.view then m.excluded
+  else (match m.ctx with
+    | some c => if c != "" then [c] else []
+    | none => []) ++ m.excluded
+
+/-- dispatcher.py:62-66: how the context is handed over (functions only; a view receives it through
+its constructor). -/
+def MethodDef.attachCtx (m : MethodDef) (args : KwArgs) : List Json × KwArgs :=
+  if m.view then ([], args)
+  else match m.ctx with
+    | none => ([], args)
+    | some c =>
+      if m.positional then ([ctxMarker], args)                  -- method_args.append(context)
+      else ([], kwSet c ctxMarker args)                         -- method_kwargs[self.context] = context
+
 /-- dispatcher.py:56-68 `Method.bind` / 107-113 `ViewMethod.bind`: the positional and keyword
 arguments of the `functools.partial`, or ValidationError. -/
 def MethodDef.bind (m : MethodDef) (params : Params) : Py (List Json × KwArgs) :=
-  if m.view then
-    -- the bound method is validated as it is: nothing is excluded but what the predicate selects
-    match sigBind (reduceSig m.sig m.excluded) params with
-    | .raised _ => .raised .validation
-    | .ok args =>
-      match m.post args with
-      | none => .raised .validation
-      | some args' => .ok ([], args')
-  else
-    let excl := (match m.ctx with
-      | some c => if c != "" then [c] else []                   -- `if self.context`
-      | none => []) ++ m.excluded
-    match sigBind (reduceSig m.sig excl) params with
-    | .raised _ => .raised .validation
-    | .ok args =>
-      match m.post args with
-      | none => .raised .validation
-      | some args' =>
-        match m.ctx with
-        | none => .ok ([], args')
-        | some c =>
-          if m.positional then .ok ([ctxMarker], args')         -- method_args.append(context)
-          else .ok ([], kwSet c ctxMarker args')                -- method_kwargs[self.context] = context
+  match sigBind (reduceSig m.sig m.exclusions) params with
+  | .raised _ => .raised .validation
+  | .ok args =>
+    match m.post args with
+    | none => .raised .validation
+    | some args' => .ok (m.attachCtx args')
 
 /-- What the view instance was constructed with (`view_cls(context) if self.context else view_cls()`). -/
 def MethodDef.viewCtx (m : MethodDef) : KwArgs :=
